@@ -22,7 +22,7 @@ class Oracle(c01.Oracle):
             tgt = ev["a"][1]["n"]
             if tgt == "kern_other":
                 self.violation({"oracle": "call_eqv", "kind": "accepted-unrelated-callee", "op": "call_eqv", "seed": self.st.seed.name},
-                               {"event": ev, "before": str(self.st.proc), "after": str(q)})
+                               {"event": ev, "before": oracles.sstr(self.st.proc), "after": oracles.sstr(q)})
         super().after(ev, q, exc, outcome)
 
 
